@@ -43,10 +43,25 @@ pub fn load_generic(m: &mut M, r: &mut Rng, d: usize, emin: i32, emax: i32) {
     }
 }
 
+/// a full-width random low word 1..3 binades below half an ulp of `hi`, either sign
+fn generic_lo(r: &mut Rng, hi: f64) -> f64 {
+    if hi == 0.0 || !hi.is_finite() {
+        return 0.0;
+    }
+    let ee = exponent(hi) - 53 - r.range(1, 3) as i32;
+    if ee < -1022 {
+        0.0
+    } else {
+        f64::from_bits(((ee + 1023) as u64) << 52 | (r.next() & ((1u64 << 52) - 1)) | ((r.next() & 1) << 63))
+    }
+}
+
 /// b := a value that nearly cancels register a at a chosen depth
 fn load_cancelling(m: &mut M, r: &mut Rng, d: usize, a: usize) {
     let x = m.tf(a);
-    let depth = r.range(0, 110);
+    // a third of the time the residual is a few ulps of the high word (the zone in which the low-word sums
+    // and their rounding residuals are of the order of the result and every renormalisation step matters)
+    let depth = if r.below(3) == 0 { r.range(44, 56) } else { r.range(0, 110) };
     loop {
         let (hi, lo);
         if depth == 0 || x.hi() == 0.0 {
@@ -58,9 +73,10 @@ fn load_cancelling(m: &mut M, r: &mut Rng, d: usize, a: usize) {
             let bits = x.hi().to_bits();
             let nb = if r.coin() { bits.wrapping_add(k) } else { bits.wrapping_sub(k) };
             hi = -f64::from_bits(nb);
-            lo = match r.below(3) {
+            lo = match r.below(4) {
                 0 => -x.lo(),
                 1 => lo_candidate(r, hi),
+                2 => generic_lo(r, hi),
                 _ => 0.0,
             };
         } else {
@@ -123,7 +139,11 @@ pub fn arith(m: &mut M, r: &mut Rng, n: u64, which: &str) {
         let scen = r.below(10);
         match scen {
             0..=2 => {
-                load_valid(m, r, 0, emin, emax);
+                if scen == 2 {
+                    load_generic(m, r, 0, emin, emax);
+                } else {
+                    load_valid(m, r, 0, emin, emax);
+                }
                 load_cancelling(m, r, 1, 0);
             }
             3 => {
@@ -260,6 +280,24 @@ pub fn arith(m: &mut M, r: &mut Rng, n: u64, which: &str) {
             m.call("arith", "from_f64", *r.pick(&["From", "from_f64", "Into", "NumCast"]), Some(2), &[A::F(z)]);
         }
         if all || which == "add" {
+            if i % 2 == 0 {
+                // ulp-level cancellation of the high words with two independent full-width low words, through
+                // EVERY spelling: the residual of the low-word sum is then of the order of the result, so each of
+                // the two renormalisation steps of Alg. 6 (and of its hand-copied += / -= bodies) is exercised
+                let e = r.range(emin as i64, emax as i64 - 1) as i32;
+                let h = r.f64_uniform_mant(e, e);
+                let k = match r.below(4) { 0 | 1 => 1, 2 => r.range(2, 4) as u64, _ => 1u64 << r.below(10) };
+                let hb = f64::from_bits(if r.coin() { h.to_bits() + k } else { h.to_bits() - k });
+                if hb.is_finite() && exponent(hb) > -1022 && m.load(6, h, generic_lo(r, h)) && m.load(7, -hb, generic_lo(r, hb)) {
+                    for spn in SP_TT {
+                        m.call("arith", "add", spn, Some(2), &[A::R(6), A::R(7)]);
+                    }
+                    m.call("arith", "neg", "v", Some(7), &[A::R(7)]);
+                    for spn in SP_TT {
+                        m.call("arith", "sub", spn, Some(2), &[A::R(6), A::R(7)]);
+                    }
+                }
+            }
             m.call("arith", "add", sp(r), Some(2), &[A::R(0), A::R(1)]);
             m.call("arith", "sub", sp(r), Some(3), &[A::R(0), A::R(1)]);
             m.call("arith", "add", sp(r), Some(4), &[A::R(0), A::F(fa)]);
@@ -268,7 +306,15 @@ pub fn arith(m: &mut M, r: &mut Rng, n: u64, which: &str) {
             m.call("arith", "sub", spf(r), Some(5), &[A::F(fa), A::R(0)]);
             if i % 5 == 0 {
                 // iterator sums (f64 items and TwoFloat items), every spelling, against the explicit fold
-                let cnt = match r.below(4) { 0 => 0, 1 => 1, 2 => r.range(2, 12), _ => r.range(12, 120) } as usize;
+                // long inputs sit around powers of two: a blocked / pairwise / chunked summation changes the
+                // association order only beyond its block length
+                let cnt = match r.below(5) {
+                    0 => 0,
+                    1 => 1,
+                    2 => r.range(2, 12),
+                    3 => r.range(12, 120),
+                    _ => crate::gen::long_len(r),
+                } as usize;
                 let ladder = r.coin();
                 let mut fl = Vec::new();
                 for k in 0..cnt {
@@ -288,7 +334,8 @@ pub fn arith(m: &mut M, r: &mut Rng, n: u64, which: &str) {
                 for spn in ["sum_v", "sum_r", "fold"] {
                     m.call("arith", "sum", spn, Some(6), &[A::FL(fl.clone())]);
                 }
-                let rl: Vec<usize> = (0..r.range(0, 9) as usize).map(|_| r.below(6) as usize).collect();
+                let nrl = if r.below(5) == 0 { crate::gen::long_len(r) } else { r.range(0, 9) } as usize;
+                let rl: Vec<usize> = (0..nrl).map(|_| r.below(6) as usize).collect();
                 for spn in ["sum_v", "sum_r", "fold"] {
                     m.call("arith", "sum", spn, Some(6), &[A::RL(rl.clone())]);
                 }
@@ -478,6 +525,19 @@ pub fn ieee_selftest(m: &mut M, r: &mut Rng, n: u64) {
         m.call("ieee", "h_fma", "host", None, &[A::F(a), A::F(b), A::F(c), A::F(a.mul_add(b, c))]);
         m.call("ieee", "h_round", "host", None, &[A::F(a), A::F(a.floor()), A::F(a.ceil()), A::F(a.round()), A::F(a.trunc())]);
         m.call("ieee", "h_f32", "host", None, &[A::F(a), A::F32(a as f32)]);
+    }
+}
+
+/// lengths just below, at and above the powers of two from 8 to 1024 (and a few beyond)
+pub fn long_len(r: &mut Rng) -> i64 {
+    let p = 1i64 << r.range(3, 10);
+    match r.below(6) {
+        0 => p - 1,
+        1 => p,
+        2 => p + 1,
+        3 => p + 2,
+        4 => 2 * p + r.range(1, 40),
+        _ => r.range(121, 1500),
     }
 }
 
